@@ -393,6 +393,13 @@ impl Bitstr {
     }
 
     fn append_bits_mut(mut self, tail: &Bitstr) -> Bitstr {
+        // the buffer may be longer than this value and hold stale bits after its end
+        let end = self.range.end;
+        let data = self.data_mut();
+        data.truncate(upper_bound_index(end));
+        if end % 8 > 0 {
+            data[end / 8] &= !(0xff >> (end % 8));
+        }
         if self.is_u8_slice() && tail.is_u8_slice() {
             self.data_mut().extend_from_slice(tail.slice().unwrap());
             self.range.end = self.range.end + tail.len();
